@@ -85,7 +85,8 @@ def build_operand(spec: Dict, values: Optional[Dict[str, Fraction]] = None):
         v = vals[0]
         if values is None:
             return numpy.asarray(v, dtype=object) if isinstance(v, Sym) else v
-        return _native(v, _native_dtype(vals))
+        dt = _native_dtype(vals)
+        return dt(_native(v, dt)) if spec.get("np") else _native(v, dt)
     if kind == "array":
         if values is None:
             return oarray(vals, shape)
